@@ -412,6 +412,10 @@ func (s *Storer) GetAofWritter(r io.Reader, offset int64) (*AofWriter, error) {
 	// continue at its right edge (the index would report the hole / the overlap as valid)
 	if right, ok := ds.AofRight(); ok && offset != right {
 		return nil, fmt.Errorf("discontinuous aof writer offset: offset(%d), expected(%d)", offset, right)
+	} else if rdb := ds.GetRdb(); !ok && rdb != nil && offset != rdb.Left() {
+		// a cache that holds only a snapshot continues at the snapshot's offset: a log that
+		// starts anywhere else would leave the range [rdb.left, offset) reported but unreadable
+		return nil, fmt.Errorf("discontinuous aof writer offset: offset(%d), expected(%d)", offset, rdb.Left())
 	}
 	ds.CloseAofWriter()
 
